@@ -439,7 +439,7 @@ CHECKS["C08"] = {
     "technique": "exhaustive enumeration of pump shapes (parser state x repeated unit x ending x delivery) on a doubling ladder with a deterministic work meter on the real code",
     "level_text": "Every shape prefix(state).unit^k.suffix for 23 parser states (request line, header name/value/block, folded header, chunk-size line, chunked body, trailer, urlencoded body, "
                   "multipart body, the header block and the Content-Disposition value of one multipart part, query string, cookie header, between messages, k whole exchanges on one connection with "
-                  "and without tx_auto_destroy, and the response-side counterparts incl. Content-Encoding list and before/after a message) x 45 units "
+                  "and without tx_auto_destroy (also after one recycled slot), and the response-side counterparts incl. Content-Encoding list and before/after a message) x 45 units "
                   "(white space, CR/LF forms, header lines with the same / DISTINCT names, fold lines, chunk pieces, parameter and cookie pieces with distinct names, multipart pieces, "
                   "path pieces, NUL, look-alike lines, and six two-phase units such as k blanks followed by k digits) x {proper end, abrupt close} x {one call, 1-byte calls} is run with "
                   "k doubling from 64 until 1 MiB (quick) / 4 MiB (thorough) of input or a work budget of 6e8 units. Work = basic blocks executed in libhtp+LZMA (trace-pc-guard) + bytes/16 "
@@ -448,7 +448,7 @@ CHECKS["C08"] = {
     "level_note": "An asymptotic claim is decided only up to the ladder top; caps that sit above the ladder would be missed (the largest, the 100 KiB folded-header cap, is inside it). realloc is "
                   "metered as moving the whole block, which is pessimistic. The constants 17000 and 60000 are 4x the largest values measured on linear shapes (fold lines below the cap; inflateInit).",
     "design_ref": "DESIGN.md §6 C08",
-    "rule": "state (38) x unit (59) x ending {proper suffix, abrupt close} x delivery {one call, 1-byte calls, prefix in its own call then the rest in one call}, ladder k=64.. ; distinct = distinct (state, work-per-byte class) outcomes",
+    "rule": "state (39) x unit (59) x ending {proper suffix, abrupt close} x delivery {one call, 1-byte calls, prefix in its own call then the rest in one call}, ladder k=64.. ; distinct = distinct (state, work-per-byte class) outcomes",
     "bounds": {"quick": "ladder to 1 MiB / 6e8 work units; 1-byte delivery to 8 KiB", "thorough": "ladder to 4 MiB"},
     "deadline": {"quick": 420},
     "assumptions": ["IDS personality, logging off"],
